@@ -277,6 +277,35 @@ func Run(r *mc.Run) {
 		"combinations": "1.5 KiB paragraph x every sibling size; 40 KiB x {none, 512, 31000, 32768}; 140 KiB x {none, 31000}; each x 6 control encodings; data file of 1 MiB+17 (thorough also 3 MiB+511) x 6 data encodings",
 		"filler":       "gen.PatternBytes (incompressible)"}, len(szIns), func(i int, st *mc.Stats) bool { return runIns(r, "sizes", c, szIns[i:i+1], st) })
 
+	// ---- scenario 1f: the control paragraph as a FIELD MODEL (fields of deb.Control by reflection, an alphabet of legal
+	// values per field incl. the Policy-enumerated ones, paragraph-only fields, accepted debian-binary contents):
+	// baseline + every execution with <= k deviations.
+	{
+		fpairs := [][2]string{{"gz", "gz"}}
+		if has(comps, "xz") {
+			fpairs = append(fpairs, [2]string{"none", "xz"})
+		}
+		k := r.Pick(1, 2)
+		fins := fieldInputs(k, fpairs)
+		var desc []string
+		for _, f := range fieldModel() {
+			var vs []string
+			for _, v := range f.Vars {
+				vs = append(vs, strings.Join(v.Lines, "\\n "))
+			}
+			desc = append(desc, fmt.Sprintf("%s (%s, go=%q): %s", f.Key, f.Kind, f.Go, strings.Join(vs, " | ")))
+		}
+		r.Scenario("control-field-model", map[string]interface{}{"fields": desc, "debian_binary_accepted": binaryAlphabet, "deviation_bound": k, "compression_pairs": fpairs,
+			"deviations": "a field takes another value of its alphabet; an optional field is absent; debian-binary takes another accepted content", "inputs": len(fins)},
+			(len(fins)+15)/16, func(i int, st *mc.Stats) bool {
+				hi := (i + 1) * 16
+				if hi > len(fins) {
+					hi = len(fins)
+				}
+				return runIns(r, "control-field-model", c, fins[i*16:hi], st)
+			})
+	}
+
 	// ---- scenario 1e: CONCATENATED streams. gzip members, xz streams, bzip2 streams and zstd frames may be concatenated;
 	// such a file is a valid .gz/.xz/.bz2/.zst and decodes to the concatenation. The control and the data tar are cut
 	// into 2 and 3 parts (a) at tar-entry boundaries and (b) inside an entry, each part compressed on its own.
